@@ -213,7 +213,14 @@ def queries (cfg : Config) (env : Env) (s : State) : List String :=
     "pull_ix=" ++ ixs s.chipsPulling,
     "eff=" ++ pList (fun i => pExcept pInt (s.effectiveStack cfg i)) (playerIndices cfg),
     "in_play=" ++ pCards ((s.board.flatten ++ s.hole.flatten).filter Card.known),
-    "out_play=" ++ pCards ((s.deck ++ s.burned ++ s.mucked ++ s.discarded.flatten).filter Card.known) ]
+    "out_play=" ++ pCards ((s.deck ++ s.burned ++ s.mucked ++ s.discarded.flatten).filter Card.known),
+    "censored=" ++ pList (fun i => pCards (((s.holeOf i).zip (s.holeStatusesOf i)).map
+      fun (c, st) => if st then c else Card.unknownCard)) (playerIndices cfg),
+    "down=" ++ pList (fun i => pCards (((s.holeOf i).zip (s.holeStatusesOf i)).filterMap
+      fun (c, st) => if st then none else some c)) (playerIndices cfg),
+    "up=" ++ pList (fun i => pCards (((s.holeOf i).zip (s.holeStatusesOf i)).filterMap
+      fun (c, st) => if st then some c else none)) (playerIndices cfg),
+    "pot_amounts=" ++ pExcept (pList pInt) ((s.pots cfg).map fun ps => ps.map Pot.amount) ]
 
 /-- run a machine to quiescence, emitting `L`/`D` lines at every log append -/
 partial def runEmit (cfg : Config) (env : Env) (out : IO.FS.Stream) (m : M) (fuel : Nat) : IO M := do
